@@ -28,8 +28,8 @@ const RIP: usize = 0xf8;
 fn crash_context_for_a_secondary_thread() {
     let mut child = start_child_and_wait_for_threads(3);
     let pid = child.id() as i32;
-    let blamed = *tids_of(pid).last().unwrap();
-    assert_ne!(blamed, pid);
+    // any thread but the main one (thread ids wrap around, so the numerically largest one may BE the main thread)
+    let blamed = *tids_of(pid).iter().find(|t| **t != pid).expect("setup: a secondary thread");
 
     // a stack pointer that is valid in the child: take the blamed thread's own from a first, plain dump
     let plain = MinidumpWriter::new(pid, blamed).dump(&mut std::io::Cursor::new(Vec::new())).expect("plain dump");
